@@ -49,7 +49,7 @@ func dumpStageSets(ss []dependency.StageSet) string {
 			}
 			xs = append(xs, n+core.Hex(st.Name))
 		}
-		sets = append(sets, strings.Join(xs, "+"))
+		sets = append(sets, "("+strings.Join(xs, "+")+")") // injective: one empty group differs from no group
 	}
 	return "<" + strings.Join(sets, "/") + ">"
 }
@@ -606,7 +606,7 @@ func astDump(d [][]gPoss) string {
 					}
 					xs = append(xs, n+core.Hex(st.Name))
 				}
-				sets = append(sets, strings.Join(xs, "+"))
+				sets = append(sets, "("+strings.Join(xs, "+")+")")
 			}
 			v := "~"
 			if p.Op != "" {
@@ -782,7 +782,13 @@ func streamArch(g *core.G) {
 		g.Emit("archstr", core.Hex(r.Pick(parts)+r.Str("-a", r.Intn(2))), core.Hex(r.Pick(parts)), core.Hex(r.Pick(parts)+r.Str("-a", r.Intn(2))))
 		var xs []string
 		for k := r.Intn(4); k > 0; k-- {
-			xs = append(xs, r.Pick(archNames))
+			x := r.Pick(archNames)
+			if r.Chance(1, 6) {
+				// names that begin or end with a byte other than a letter or digit
+				c := string("_%~+.:-#*^"[r.Intn(10)])
+				x = r.Pick([]string{c + x, x + c, c + x + c})
+			}
+			xs = append(xs, x)
 		}
 		g.Emit("archlist", core.Hex(strings.Join(xs, r.Pick([]string{" ", "  ", " \t", "\n ", " "}))+r.Pick([]string{"", "\n", " "})))
 	}
